@@ -846,7 +846,16 @@ def build_type(spec):
     return T.PrefixedArray(getattr(T, spec[1]), build_type(spec[2]))
 
 
+_overlap_cache = {}
+
+
 def _overlap_packets(ver):
+    if ver not in _overlap_cache:
+        _overlap_cache[ver] = _build_overlap_packets(ver)
+    return _overlap_cache[ver]
+
+
+def _build_overlap_packets(ver):
     from minecraft.networking.packets import Packet
     from minecraft.networking import types as T
     from minecraft.networking.packets import serverbound as sb
@@ -869,47 +878,84 @@ def _overlap_packets(ver):
                                      server_address='localhost',
                                      server_port=25565, next_state=2),
     ]
+    # the same class (static definition: one array-type object) and the
+    # library's multi-block-change packet under two contexts on opposite
+    # sides of a layout switch - two connections of different versions
+    from minecraft.networking.packets import clientbound as cb
+    WP = type('WaypointsPacket', (Packet,), {
+        'id': 0x33, 'packet_name': 'waypoints', 'definition': [
+            {'name': T.String},
+            {'points': T.PrefixedArray(T.VarInt, T.Position)}]})
+    pts = [T.Position(100, 64, -200), T.Position(-3000, 12, 4500),
+           T.Position(7, -5, 9), T.Position(1, 2, 3)]
+    for v2 in (340, 498):
+        out.append(WP(context=P4.fresh_ctx(v2), name='wp', points=pts))
+    M = cb.play.MultiBlockChangePacket
+    recs = [M.Record(x=1, y=239 % 16, z=13, block_state_id=19766),
+            M.Record(x=15, y=0, z=0, block_state_id=1),
+            M.Record(x=3, y=7, z=9, block_state_id=300)]
+    out.append(M(context=P4.fresh_ctx(736), chunk_x=3, chunk_z=-4,
+                 records=recs))
+    out.append(M(context=P4.fresh_ctx(751),
+                 chunk_section_pos=T.Vector(3, 5, -4),
+                 invert_trust_edges=False, records=recs))
     return out
 
 
 def overlap_case(ctx, case):
-    """Two packets being written at the same time on different sockets
-    (two connections, or a user thread and a networking thread of different
-    connections): writing A is suspended at its k-th line, B is written
-    completely, A resumes.  Both frames must equal what each produces
-    alone.  case {version, a, b, ta, tb, k} (indices into a fixed packet
-    list; ta/tb compression thresholds or None)."""
+    """Two packets being written (or read) at the same time on different
+    sockets (two connections, or a user thread and a networking thread of
+    different connections): operation A is suspended at its k-th line, B
+    runs completely, A resumes.  Each must give what it gives alone.
+    case {version, a, b, ta, tb, k, ops?: 'ww'|'rr'|'wr'|'rw'} (indices into
+    a fixed packet list; ta/tb compression thresholds or None)."""
     from vlib.budget import run_interleaved
+    from minecraft.networking.packets import PacketBuffer
     ver = case['version']
     ctx.ev()
-    pa = _overlap_packets(ver)[case['a']]
-    pb = _overlap_packets(ver)[case['b']]
+    L = _overlap_packets(ver)
+    pa, pb = L[case['a']], L[case['b']]
+    ops = case.get('ops', 'ww')
 
-    def w(p, t):
-        s = Sink()
+    def w(p, t, sink):
         if t is None:
-            p.write(s)
+            p.write(sink)
         else:
-            p.write(s, t)
-        return s.value
-    alone_a, alone_b = w(pa, case['ta']), w(pb, case['tb'])
-    sa, sb_ = Sink(), Sink()
+            p.write(sink, t)
+        return sink.value
+
+    def make(p, t, op):
+        if op == 'w':
+            alone = w(p, t, Sink())
+            s_ = Sink()
+            return (lambda: w(p, t, s_)), alone
+        body = frame_split(w(p, None, Sink()))[1]
+
+        def rd():
+            q = type(p)()
+            q.context = p.context
+            buf = PacketBuffer()
+            buf.send(body)
+            buf.reset_cursor()
+            q.read(buf)
+            return repr(sorted((k_, repr(v)) for k_, v in vars(q).items()
+                               if k_ != 'context')), len(buf.read())
+        return rd, rd()
+    fa, alone_a = make(pa, case['ta'], ops[0])
+    fb, alone_b = make(pb, case['tb'], ops[1])
     try:
-        ra, rb, ran = run_interleaved(
-            lambda: pa.write(sa) if case['ta'] is None
-            else pa.write(sa, case['ta']),
-            lambda: pb.write(sb_) if case['tb'] is None
-            else pb.write(sb_, case['tb']), case['k'])
+        ra, rb, ran = run_interleaved(fa, fb, case['k'])
     except Exception as e:
-        ctx.fail('overlap', 'F1-overlapping-writes-raise', case, exc=e)
+        ctx.fail('overlap', 'F1-overlapping-calls-raise', case, exc=e)
         return
     if not ran:
         ctx.label('overlap_point_beyond_call')
         return
-    if sa.value != alone_a or sb_.value != alone_b:
-        ctx.fail('overlap', 'F1-overlapping-writes', case,
-                 (sa.value.hex()[:120], sb_.value.hex()[:120]),
-                 (alone_a.hex()[:120], alone_b.hex()[:120]))
+    if ra != alone_a or rb != alone_b:
+        ctx.fail('overlap', 'F1-overlapping-writes' if ops == 'ww' else
+                 'F2-overlapping-reads', case,
+                 (repr(ra)[:160], repr(rb)[:160]),
+                 (repr(alone_a)[:160], repr(alone_b)[:160]))
         return
     ctx.label('overlap')
 
@@ -1057,6 +1103,17 @@ def t_programs(ctx, n):
 def t_overlap(ctx, a, step):
     n = len(_overlap_packets(757))
     for b in range(n):
+        if a >= 5 or b >= 5:
+            # the cross-version pairs: also decoding
+            for ops in ('rr', 'wr'):
+                for k in range(1, 2000, step):
+                    before = ctx.labels.get('overlap_point_beyond_call', 0)
+                    overlap_case(ctx, {'version': 757, 'a': a, 'b': b,
+                                       'ta': None, 'tb': None, 'k': k,
+                                       'ops': ops})
+                    if ctx.labels.get('overlap_point_beyond_call',
+                                      0) > before:
+                        break
         for ta, tb in ((None, None), (0, 64), (64, None)):
             for k in range(1, 2000, step):
                 before = ctx.labels.get('overlap_point_beyond_call', 0)
@@ -1072,7 +1129,7 @@ def tasks(tier):
     q = tier == 'quick'
     n = len(supported())
     tl = [('overlap_%d' % a, t_overlap, dict(a=a, step=3 if q else 1))
-          for a in range(5)]
+          for a in range(9)]
     nsh = 12
     for i in range(nsh):
         tl.append(('sweep_%d' % i, t_sweep,
